@@ -30,8 +30,96 @@ def _coin(draw, p):
 
 
 @st.composite
+def wide_documents(draw, max_subnets=9, extras=True):
+    """Second family: many small subnets on rings / lines / trees / random graphs
+    with 1-3 public subnets and permissive content, so that histories reach
+    hosts many hops away from the internet (topology-dependent behaviour)."""
+    n = draw(st.integers(4, max_subnets))
+    sizes = [1] * n
+    for _ in range(draw(st.integers(0, 2))):
+        sizes[draw(st.integers(0, n - 1))] = 2
+    N = n + 1
+    topo = [[0] * N for _ in range(N)]
+    for i in range(N):
+        topo[i][i] = 1
+    order = draw(st.permutations(list(range(1, N))))
+    shape = draw(st.sampled_from(["ring", "line", "tree", "random", "line"]))
+
+    def link(a, b):
+        topo[a][b] = topo[b][a] = 1
+    if shape in ("ring", "line"):
+        for a, b in zip(order, order[1:]):
+            link(a, b)
+        if shape == "ring":
+            link(order[-1], order[0])
+    elif shape == "tree":
+        for i in range(1, n):
+            link(order[i], order[draw(st.integers(0, i - 1))])
+    else:
+        for i in range(1, n):
+            link(order[i], order[draw(st.integers(0, i - 1))])
+        for _ in range(draw(st.integers(1, 4))):
+            a, b = draw(st.integers(1, n)), draw(st.integers(1, n))
+            if a != b:
+                link(a, b)
+    if shape == "line":
+        pubs = [order[0]] + ([order[-1]] if draw(st.booleans()) else [])
+    else:
+        k = draw(st.sampled_from([1, 1, 2, 3]))
+        pubs = list(draw(st.lists(st.sampled_from(order), min_size=k, max_size=k, unique=True)))
+    for p in pubs:
+        link(0, p)
+    two = draw(st.booleans())
+    srvs = ["ssh", "ftp"] if two else ["ssh"]
+    oss = ["linux", "windows"] if draw(st.booleans()) else ["linux"]
+    procs = ["tomcat"]
+    addrs = [(s + 1, h) for s in range(n) for h in range(sizes[s])]
+    exploits = {"e_ssh": dict(service="ssh", os="none", prob=draw(st.sampled_from([1.0, 0.5, 0.8])), cost=1,
+                              access=draw(st.sampled_from(["user", "root"])))}
+    if two:
+        exploits["e_ftp"] = dict(service="ftp", os=draw(st.sampled_from(oss + ["none"])), prob=0.9, cost=2, access="root")
+    privescs = {"pe": dict(process="tomcat", os="none", prob=draw(st.sampled_from([1.0, 0.75])), cost=1, access="root")}
+    hostcfg = {}
+    for a in addrs:
+        cfg = dict(os=draw(st.sampled_from(oss)), services=list(srvs) if _coin(draw, 0.85) else [draw(st.sampled_from(srvs))],
+                   processes=["tomcat"] if _coin(draw, 0.8) else [])
+        if _coin(draw, 0.1):
+            near = [b for b in addrs if b != a and topo[b[0]][a[0]] == 1]
+            if near:
+                cfg["firewall"] = {draw(st.sampled_from(near)): [draw(st.sampled_from(srvs))]}
+        if _coin(draw, 0.3):
+            cfg["value"] = draw(st.sampled_from(VALUES))
+        hostcfg[a] = cfg
+    k = draw(st.integers(1, 3))
+    sens_addrs = draw(st.lists(st.sampled_from(addrs), min_size=k, max_size=k, unique=True))
+    sensitive = {a: draw(st.sampled_from(SENS_VALUES)) for a in sens_addrs}
+    for a in sens_addrs:
+        hostcfg[a].pop("value", None)
+    firewall = {}
+    for i in range(N):
+        for j in range(N):
+            if i != j and topo[i][j] == 1:
+                firewall[(i, j)] = list(srvs) if _coin(draw, 0.85) else [s_ for s_ in srvs if _coin(draw, 0.5)]
+    doc = dict(subnets=sizes, topology=topo, sensitive_hosts=sensitive, os=oss, services=srvs, processes=procs,
+               exploits=exploits, privilege_escalation=privescs,
+               service_scan_cost=draw(st.sampled_from(SCAN_COSTS)), os_scan_cost=1,
+               subnet_scan_cost=draw(st.sampled_from(SCAN_COSTS)), process_scan_cost=1,
+               host_configurations=hostcfg, firewall=firewall)
+    if draw(st.booleans()):
+        doc["step_limit"] = draw(st.integers(5, 60))
+    if extras and _coin(draw, 0.3):
+        doc["_discovery_values"] = {a: draw(st.sampled_from(DISCOVERY_VALUES)) for a in addrs}
+    return doc
+
+
+DISCOVERY_VALUES = [0, 1, 2, 0.5, 5, 40, 1000]
+
+
+@st.composite
 def documents(draw, max_subnets=4, max_size=3, max_hosts=7, extras=True,
-              deny_rich=False):
+              deny_rich=False, wide=0.2):
+    if wide and _coin(draw, wide):
+        return draw(wide_documents(extras=extras))
     n = draw(st.integers(1, max_subnets))
     sizes = []
     for _ in range(n):
@@ -162,7 +250,7 @@ def documents(draw, max_subnets=4, max_size=3, max_hosts=7, extras=True,
     if extras:
         if _coin(draw, 0.35):
             doc["_discovery_values"] = {
-                a: draw(st.sampled_from([0, 1, 2, 0.5, 5])) for a in addrs}
+                a: draw(st.sampled_from(DISCOVERY_VALUES)) for a in addrs}
         if _coin(draw, 0.25):
             doc["_bounds"] = (N + draw(st.integers(0, 3)),
                               max(sizes) + draw(st.integers(0, 3)))
